@@ -21,17 +21,7 @@ def check(ctx, src):
     ctx.require(s is not None, "Symbol.__new__ not found")
     # Symbol: as_identifier(s) is called exactly when the string does not come from the parser, and its result decides
     def helpers_of(fn, depth=2):
-        out, todo = [fn], [(fn, 0)]
-        while todo:
-            f, d = todo.pop()
-            if d >= depth:
-                continue
-            for c in pyq.calls(f):
-                h = mo.func(c.func.id) if isinstance(c.func, ast.Name) else None
-                if h is not None and h not in out:
-                    out.append(h)
-                    todo.append((h, d + 1))
-        return out
+        return pyq.helpers_of(mo, fn, depth)
 
     ai_calls = [c for fn in helpers_of(s) for c in pyq.calls(fn) if dotted(c.func) == "as_identifier"]
     ctx.need(len(ai_calls) >= 1, "Symbol.__new__ no longer validates through as_identifier")
